@@ -50,6 +50,29 @@ func ladderOf(h *Func) (rungs []ladderRung, lets map[types.Object]ast.Expr, ok b
 					lets[o] = s.Rhs[j]
 				}
 			}
+		case *ast.DeclStmt:
+			// const k = ... : constants are resolved through the type information; var x = e : a let-binding
+			gd, isGen := s.Decl.(*ast.GenDecl)
+			if !isGen || len(rungs) > 0 {
+				return nil, nil, false
+			}
+			switch gd.Tok {
+			case token.CONST:
+			case token.VAR:
+				for _, sp := range gd.Specs {
+					vs, isVS := sp.(*ast.ValueSpec)
+					if !isVS || len(vs.Values) != len(vs.Names) {
+						return nil, nil, false
+					}
+					for j, nm := range vs.Names {
+						if o := info.Defs[nm]; o != nil {
+							lets[o] = vs.Values[j]
+						}
+					}
+				}
+			default:
+				return nil, nil, false
+			}
 		case *ast.IfStmt:
 			if s.Init != nil || s.Else != nil || len(s.Body.List) != 1 {
 				return nil, nil, false
